@@ -15,6 +15,12 @@ def plan(tier, seed):
             ch("C04", F, "h_cat_stats_nulls", t, wc_lattice.FUN, env=envc)]
     jobs.append(ch("C04", "vf/pyshim/h_convert.py", "h_convert_intlike", t,
                    ["converted_types.convert (integer-like converted types; decoded statistics)"]))
+    # sorted_partitioned_columns(filters=...) pairs the per-row-group bounds with the index list of the surviving row
+    # groups: that list is increasing and free of repeats for every filter program
+    for h in ("h_row_groups_or2", "h_row_groups_or3"):
+        jobs.append(ch("C04", "vf/pyshim/h_c05.py", h, 160 if tier == "quick" else 600,
+                       ["api.filter_row_groups (as_idx)", "api.filter_out_stats", "api.filter_out_cats"],
+                       env=dict(VERIF_SLEN=1)))
     jobs.append(ch("C04", "vf/pyshim/h_convert.py", "h_stat_bound_decodes", t,
                    ["encoding.read_plain (stat=True)", "converted_types.convert"]))
     jobs.append(ch("C04", "vf/pyshim/h_convert.py", "h_stat_text_decodes", t,
